@@ -6,6 +6,7 @@ rounding), `Model/Float.lean` (integer rounding used by conversions); `Lemmas/Ro
 -/
 import MechVerif.Model.Lit
 import MechVerif.Lemmas.Round
+import MechVerif.Gen.LitOrder
 namespace MechVerif.Lit
 open MechVerif.FloatX MechVerif.Num
 
@@ -343,6 +344,29 @@ theorem C13_float_overflow_and_underflow (num den : Nat) (hn : num ≠ 0) (hd : 
 
 /-- the premise is met: 0.1 = 1/10 is rounded to the mantissa 0x1999999999999a at exponent −4 -/
 example : ratRound 1 10 = .fin 0x1999999999999a (-4) 53 := by decide +kernel
+
+/-! ### the grammar's order of alternatives as written in the source (regenerated on every run: `Gen/LitOrder.lean`) -/
+
+/-- The forms `real_number` tries, in the order written in literals.rs, are `realNumberOrder`; every spelling of the model
+    (with one of the four base prefixes, if based) has its form among them; and the order tries every form before the
+    forms that would succeed on a prefix of its spellings, so the first match is the reading `Spelling` stands for. -/
+theorem C13_grammar_order_as_written :
+    (formsOf Gen.LitOrder.altFunctions Gen.LitOrder.leaves Gen.LitOrder.realNumberAlts).filterMap id = realNumberOrder ∧
+    (∀ s : Spelling, (∀ b, s.form = .based b → b ∈ [16, 10, 8, 2]) →
+      s.form ∈ (formsOf Gen.LitOrder.altFunctions Gen.LitOrder.leaves Gen.LitOrder.realNumberAlts).filterMap id) ∧
+    respects ((formsOf Gen.LitOrder.altFunctions Gen.LitOrder.leaves Gen.LitOrder.realNumberAlts).filterMap id) = true := by
+  have h := Gen.LitOrder.C13_real_number_alternatives_are_model.1
+  have hf : (formsOf Gen.LitOrder.altFunctions Gen.LitOrder.leaves Gen.LitOrder.realNumberAlts).filterMap id = realNumberOrder := by
+    rw [h]; decide
+  refine ⟨hf, ?_, Gen.LitOrder.C13_alternatives_respect_prefixes.1⟩
+  intro s hb
+  rw [hf]
+  cases s with
+  | based b ds u =>
+    have := hb b rfl
+    simp only [List.mem_cons, List.not_mem_nil, or_false] at this
+    rcases this with h | h | h | h <;> subst h <;> simp only [Spelling.form] <;> decide
+  | _ => simp only [Spelling.form] <;> decide
 
 /-! ### non-vacuity and the spellings of the specification -/
 example : denote 16 [15, 15] = 255 := by decide
